@@ -240,15 +240,16 @@ impl QueryEngine {
 //@replace "query_str.split_whitespace().collect::<Vec<_>>().join(\" \")" => "normalize_ws(query_str)" :: iterator/str API without Verus specification; wrapper body is the original expression
 //@replace "query_str.contains(" => "str_contains_pred(query_str, " :: str::contains(Pattern) has no Verus specification; wrapper body is the original expression
 //@closure str_contains_pred#1 (c: char) -> (b: bool) ensures b == (@BODY)
-//@after "let normalized = "
+//@name KEY "let (\w+) = if str_contains_pred\("
+//@after "let @{KEY} = "
         proof {
             // obligation: the key the code computes is key_spec of the text (quote- and comment-free texts by their words,
             // any other text by itself)
-            assert(normalized@ == key_spec(query_str@));
+            assert(@{KEY}@ == key_spec(query_str@));
         }
 //@before "return Ok(cached.clone());"
                 proof { lemma_key_sound(query_str@, query_str@); }
-//@before "cache.put(normalized, query.clone());"
+//@before "cache.put("
             proof {
                 let k = key_spec(query_str@);
                 assert forall|s: Seq<char>| key_spec(s) == k implies parse_spec(s) == Some(query) by {
